@@ -219,6 +219,10 @@ def gen_config(seed, tier='quick', family=None, index=None):
     if (cfg['random_seed'] is not None and cfg['model'] == 'TFIChain' and fam not in TIME_DEPENDENT
             and fam not in ('idmrg', 'vumps', 'exc')):
         cfg['disorder'] = nl.choice(['np', 'np', 'rng', None])
+    # only user-connected measurements (no measurement_index / bond_dimension / entropy from the defaults)
+    cfg['no_default_measurements'] = bool(cfg['extra_measurements'] and cfg.get('wrapped_measurement')
+                                          and nl.random() < 0.35)
+    cfg['late_onset'] = nl.choice([1, 1, 2, 3])
     return cfg
 
 
@@ -287,6 +291,8 @@ def build_params(cfg, out_name=None):
     }
     if cfg.get('skip_if_output_exists'):
         params['skip_if_output_exists'] = True
+    if cfg.get('no_default_measurements') and cfg['extra_measurements'] and cfg.get('wrapped_measurement'):
+        params['use_default_measurements'] = False
     if cfg.get('random_seed') is not None:
         params['random_seed'] = cfg['random_seed']
     if cfg.get('disorder') and cfg.get('random_seed') is not None:  # (unseeded disorder is not reproducible at all)
@@ -366,7 +372,9 @@ def build_params(cfg, out_name=None):
             params['connect_measurements'] += [
                 ['checks.c18_models', 'wrap constant_measurement', {'results_key': 'my_const', 'value': 7.0}],
                 ['psi_method', 'wrap entanglement_entropy', {'results_key': 'S_wrapped'}],
-                ['checks.c18_models', 'm_late']]  # a key that first appears at the second measurement
+                # a key that first appears at the second (or a later) measurement
+                ['checks.c18_models', 'm_late'] + ([{'onset': cfg['late_onset']}] if cfg.get('late_onset', 1) > 1
+                                                   else [])]
             if not is_gs and cfg.get('truncerr_measurement'):
                 # TruncationError objects as measurement values (tenpy stores them as <key>_eps / <key>_ov arrays)
                 params['connect_measurements'].append(['checks.c18_models', 'm_trunc_err'])
